@@ -1175,6 +1175,16 @@ func (c *control) dirP(colon, at bool, params []any) {
 }
 
 func (c *control) dirR(colon, at bool, params []any) {
+	if 0 < len(params) {
+		// ~radix,mincol,padchar,commachar,comma-intervalR prints the argument
+		// in radix the way ~D prints it in decimal.
+		radix := c.getIntParam(0, params, 10, true)
+		if radix < 2 || 36 < radix {
+			slip.ErrorPanic(c.scope, 0, "radix directive parameter must be between 2 and 36 at %d of %q", c.pos, c.str)
+		}
+		c.dirInt(colon, at, params[1:], radix)
+		return
+	}
 	if len(c.args) <= c.argPos {
 		slip.ErrorPanic(c.scope, 0, "missing argument for Radix directive at %d of %q", c.pos, c.str)
 	}
